@@ -15,7 +15,9 @@ def unit_template(master, defines, uname):
     masters carry `//@FUNC_IF U_X [U_Y ..]` instead and the per-unit template written here (gen/<unit>.c, regenerated on
     every load, never edited by hand) differs from its master in exactly that line: `//@FUNC` for the active block, nothing
     for the others."""
-    text = open(os.path.join(HERE, master)).read()
+    masters = [master] if isinstance(master, str) else list(master)
+    text = "".join(open(os.path.join(HERE, m)).read() for m in masters)
+    master = " + ".join(masters)
 
     def rep(m):
         return "//@FUNC" if set(m.group(1).split()) & set(defines) else "/* (contract of another unit) */"
@@ -76,7 +78,7 @@ def frag(src, start, rules):
 # ---- unit group 1: movable_sbo_storage / copyable_sbo_storage ------------------------------------------------------
 EMPTYVT = Sub(r"const_cast<\s*base_type\s*\*\s*>\(\s*get_empty_vtable<\s*base_type\s*>\(\)\s*\)", "get_empty_vtable()", None)
 REFS = [  # reference parameter `other` -> pointer; *this / this -> self
-    Sub(r"&other\b", "other", None), Sub(r"\bother\.", "other->", None),
+    Sub(r"&other\b(?!\s*->)", "other", None), Sub(r"\bother\.", "other->", None),
     Sub(r"\*this\b", "self", None), Sub(r"\bthis\b", "self", None),
 ]
 
@@ -141,22 +143,20 @@ BASES = {
 UNITS = []
 
 
-def sbo_unit(base, name, define, enforce, body_key, body_lift, what, min_ob=8):
+def sbo_unit(base, name, define, enforce, body_key, body_lift, what, min_ob=60):
     lifts, defs, tname = BASES[base]
     lifts = dict(lifts)
     if body_key:
         lifts[body_key] = body_lift
-    if define == "U_EMPTY":
-        pass
     uname = "sbo.%s.%s" % (base, name)
-    UNITS.append(Unit(uname, unit_template("sbo.c", defs + [define], uname), defines=defs + [define], enforce=enforce, lifts=lifts,
+    UNITS.append(Unit(uname, unit_template(["sbo_core.c", "sbo_units.c"], defs + [define], uname), defines=defs + [define], enforce=enforce, lifts=lifts,
                       funcs=["%s: pika::detail::%s::%s" % (ANY, tname, what)], min_obligations=min_ob))
 
 
 for base in ("opstate", "unique", "any"):
     sbo_unit(base, "empty", "U_EMPTY", "sbo_empty", None, None, "empty, get")
     sbo_unit(base, "release", "U_RELEASE", "sbo_release", None, None, "release, reset_vtable")
-    sbo_unit(base, "default_ctor", "U_DEFAULT_CTOR", "sbo_default_ctor", None, None, "default member initialisers", min_ob=3)
+    sbo_unit(base, "default_ctor", "U_DEFAULT_CTOR", "sbo_default_ctor", None, None, "default member initialisers")
     sbo_unit(base, "reset", "U_RESET", "sbo_reset", "reset",
              Lift(ANY, r"void reset\(\)", expect=3, which=0, rules=sbo_rules()), "reset")
     sbo_unit(base, "dtor", "U_DTOR", "sbo_dtor", "dtor",
@@ -184,11 +184,7 @@ sbo_unit("any", "copy_assign", "U_COPY_ASSIGN", "sbo_op_copy", "op_copy",
          Lift(ANY, r"copyable_sbo_storage& operator=\(copyable_sbo_storage const& other\)", rules=sbo_rules("self")),
          "operator=(copyable_sbo_storage const&), copy_assign, release, any_sender_impl::clone")
 
-META = {
-    "trusted_base": [],
-    "assumptions": [],
-    "not_decided": [],
-}
+META = {}   # filled in at the end of the file
 
 
 # ---- unit group 2: function_base / basic_function -------------------------------------------------------------------
@@ -217,9 +213,13 @@ class CtorLift(Lift):
                 raise LiftError("CtorLift: unexpected text between parameter list and body: %r" % rest[:40])
             for item in split_args(rest[1:]):
                 mi = re.match(r"^(\w+)\s*[\(\{](.*)[\)\}]$", item.strip(), re.S)
-                if not mi:
+                mb = re.match(r"^([\w:]+<[^()]*>)\s*[\(\{](.*)[\)\}]$", item.strip(), re.S)
+                if mi:      # data member: the left-hand side is the member even if a parameter has the same name
+                    stmts.append("this->%s = %s;" % (mi.group(1), mi.group(2).strip() or "0"))
+                elif mb:    # base class (template-id): constructor call statement, mapped by a unit rule
+                    stmts.append("%s(%s);" % (mb.group(1), mb.group(2).strip()))
+                else:
                     raise LiftError("CtorLift: cannot parse mem-initialiser %r" % item)
-                stmts.append("%s = %s;" % (mi.group(1), mi.group(2).strip() or "0"))
         raw = body
         body = "{ " + " ".join(stmts) + body[1:]
         body = L.resolve_pp(body)
@@ -236,6 +236,7 @@ def fb_rules(ret=""):
         # reference parameters other / f -> pointers
         Sub(r"\b(other|f)\.", r"\1->", None), Sub(r"&(other|f)\b(?!->)", r"\1", None),
         Sub(r"\*this\b", "self", None), Sub(r"\bthis\b", "self", None),
+        Sub(r"\bself->storage_init\b", "self->storage[0]", None),
         Sub(r"\bstd::size_t\((-?\w+)\)", r"((size_t)(\1))", None),
         Sub(r"\b(?:detail::)?function_storage_size\b", "function_storage_size", None),
         Sub(r"\bstd::memcpy\(", "vx_memcpy(", None),
@@ -255,25 +256,39 @@ def fb_rules(ret=""):
     ]
 
 
+def _policy(m):
+    return "#define VX_HEAP_POLICY(T, storage_size) (%s)" % " ".join(m.group(1).split())
+
+
 VT_RULES = [
     Sub(r"\bsizeof\(T\)", "VX_SIZEOF(T)", None),
+    Sub(r"\balignof\(T\)", "VX_ALIGNOF(T)", None), Sub(r"\balignof\(", "_Alignof(", None),
+    Sub(r"\bstd::size_t\((-?\w+)\)", r"((size_t)(\1))", None),
     Sub(r"\bnew\s+aligned_storage_helper<T>", "blk_new(T)", None),
     Sub(r"(?:vtable::)?get<T>\((\w+)\)\.~T\(\)", r"T_destroy(T, \1)", None),
     Sub(r"\bdelete\s+static_cast<aligned_storage_helper<T>\s*\*>\((\w+)\)\s*;", r"blk_delete(T, \1);", None),
     Sub(r"(?:vtable::)?allocate<T>\(", "vt_allocate(T, ", None),
     Sub(r"::new\s*\((\w+)\)\s*T\((?:vtable::)?get<T>\((\w+)\)\)", r"T_copy_construct(T, \1, \2)", None),
 ]
+ERRH = "libs/pika/errors/include/pika/errors/error.hpp"
+ERRORS = Lift(ERRH, r"enum class error\s*\{", fragment_end=r"\};", rules=[
+    Sub(r"enum class error\s*\{", "enum pika_error {", 1),
+    Sub(r"(?m)^(\s*)(\w+)(\s*=\s*[^,\n]+)?(,?)[ \t]*$", r"\1pika_error_\2\3\4", "+")])
 FB_COMMON = {
+    "errors": ERRORS,
     "consts": frag(FHPP, r"static std::size_t const function_storage_size\s*=",
                    [Sub(r"static std::size_t const (\w+)\s*=\s*([^;]+);", r"enum { \1 = \2 };", 1)]),
     "vt_allocate": Lift(VT, r"static void\* allocate\(void\* storage, std::size_t storage_size\)", rules=VT_RULES),
+    # the condition of allocate<T>'s `if` as a macro (fragment: from the signature to the `) {` that closes the condition)
+    "heap_policy": Lift(VT, r"static void\* allocate\(void\* storage, std::size_t storage_size\)\s*\{\s*if\s*\(", fragment_end=r"\)\s*\{",
+                        rules=[Sub(r"^.*?\bif\s*\((.*)\)\s*\{$", _policy, 1)] + VT_RULES),
     "vt_deallocate": Lift(VT, r"static void _deallocate\(", rules=VT_RULES),
     "vt_copy": Lift(CVT, r"static void\* _copy\(", rules=VT_RULES),
     "throw_bad_function_call": Lift(EFC, r"void throw_bad_function_call\(\)", rules=[
-        Call(r"pika::throw_exception", "vx_throw({0})", 1), Sub(r"pika::error::(\w+)", r"pika_error_\1", None)]),
+        Call(r"pika::throw_exception", "vx_throw({0})", None), Sub(r"pika::error::(\w+)", r"pika_error_\1", None)]),
     "throw_bad_function_call_R": Lift(EFH, r"inline R throw_bad_function_call\(\)"),
     "vt_empty_invoke": Lift(CALLVT, r"static R _empty_invoke\(", rules=[
-        Sub(r"\bthrow_bad_function_call<R>\(\)", "throw_bad_function_call_R()", 1)]),
+        Sub(r"\bthrow_bad_function_call<R>\(\)", "throw_bad_function_call_R()", None), Sub(r"\bR\(\)", "0", None)]),
     "destroy": Lift(FCPP, r"void function_base::destroy\(\) noexcept", rules=fb_rules()),
     "reset": Lift(FCPP, r"void function_base::reset\(vtable const\* empty_vptr\) noexcept", rules=fb_rules()),
     "swap": Lift(FCPP, r"void function_base::swap\(function_base& f\) noexcept", rules=fb_rules()),
@@ -292,7 +307,7 @@ BF_ASSIGN_RULES = [
 ]
 
 
-def fb_unit(name, define, enforce, key, lift, what, src=FCPP, min_ob=20, **kw):
+def fb_unit(name, define, enforce, key, lift, what, src=FCPP, min_ob=80, **kw):
     lifts = dict(FB_COMMON)
     if key:
         lifts[key] = lift
@@ -302,9 +317,10 @@ def fb_unit(name, define, enforce, key, lift, what, src=FCPP, min_ob=20, **kw):
                       min_obligations=min_ob, **kw))
 
 
+fb_unit("embedded_alignment", "U_ALLOCATE", "vt_allocate", None, None, "vtable::allocate<T> (placement decision)", src=VT)
 fb_unit("default_ctor", "U_DEFAULT_CTOR", "fb_ctor", "ctor",
         CtorLift(FHPP, r"constexpr explicit function_base\(function_base_vtable const\* empty_vptr\) noexcept", rules=fb_rules()),
-        "function_base::function_base(vtable const*)", src=FHPP, min_ob=5)
+        "function_base::function_base(vtable const*)", src=FHPP)
 fb_unit("copy_ctor", "U_COPY_CTOR", "fb_copy_ctor", "copy_ctor",
         CtorLift(FCPP, r"function_base::function_base\(function_base const& other, vtable const\*", rules=fb_rules()),
         "function_base::function_base(function_base const&, vtable const*)")
@@ -335,11 +351,11 @@ fb_unit("bf_call", "U_BF_CALL", "bf_call", "bf_call",
             Sub(r"\bvtable const\*", "const struct fvt *", None),
             Sub(r"\bbase_type::vptr\b", "self->vptr", None),
             Sub(r"std::forward<Ts>\((\w+)\)\.\.\.", r"\1", None),
-            Members(["object"]),
+            Members(["object"], optional=["object"]),
             Call(r"([\w>.\-]+)->(invoke)", "vt_{h2}({h1}, {args})", 1)]),
-        "basic_function::operator(), callable_vtable::_empty_invoke, throw_bad_function_call", src=FHPP, min_ob=10)
+        "basic_function::operator(), callable_vtable::_empty_invoke, throw_bad_function_call", src=FHPP)
 fb_unit("empty", "U_EMPTY", "fb_empty", "empty", Lift(FHPP, r"bool empty\(\) const noexcept", rules=fb_rules()),
-        "function_base::empty", src=FHPP, min_ob=3)
+        "function_base::empty", src=FHPP)
 
 # twins of the two units above that fail on the pinned tree: same contract, callable constructors that do not throw
 fb_unit("op_assign_copy.nothrow", "U_OP_ASSIGN_COPY", "fb_op_assign_copy", "op_assign_copy",
@@ -349,3 +365,248 @@ fb_unit("bf_assign.nothrow", "U_BF_ASSIGN", "bf_assign", "bf_assign",
         Lift(FHPP, r"void assign\(F&& f\)", rules=BF_ASSIGN_RULES + fb_rules() + [
             AssignFromThrowing(r"T_construct_from", "void *", "", None)]),
         "basic_function::assign(F&&), function_base::destroy, reset", src=FHPP, defines=["VX_NO_THROWING_CTOR"])
+
+
+# ---- unit group 3: unique_any_sender / any_sender / any_receiver / any_operation_state ----------------------------------
+from vx.lift import TryCatch
+
+THROW_PIKA = [Call(r"\bPIKA_THROW_EXCEPTION", "vx_throw_pika({0})", None), Sub(r"pika::error::(\w+)", r"pika_error_\1", None)]
+FWD = Sub(r"std::forward<\w+>\((\w+)\)(\.\.\.)?", r"\1", None)
+
+
+def wrapper_rules(ret=""):
+    return [
+        DropStmt(r"\bstatic_assert", None),
+        Members(["storage"], optional=["storage"]),
+        Sub(r"\bother\.storage\b", "other->storage", None),
+        Sub(r"std::move\(([\w>\-]+)\.get\(\)\)", r"VX_RVALUE(sbo_get(&\1))", None),      # rvalue reference to the stored Base
+        Sub(r"(?<!sbo_get\(&)(?<![\w>\-])([\w>\-]+)\.get\(\)", r"VX_LVALUE(sbo_get_c(&\1))", None),  # (const) lvalue reference to it
+        FWD,
+        Sub(r"\breturn\s*\{\s*(.+?)\s*\};", r"return aos_make(\1);", None),           # return {sender, receiver}; -> constructs the result
+        Call(r"\bself->storage\.template store<impl_type<Sender>>", "{ sbo_store(&self->storage, {0}); if (vx_exc) return %s; }" % ret, None, stmt=True),
+        Sub(r"\bself->storage\.(reset|empty)\(\)", r"sbo_\1(&self->storage)", None),
+        Sub(r"\bother\.reset\(\)", "as_reset(other)", None),
+        Sub(r"\bthis->storage = std::move\(other->storage\);", "sbo_move_ctor_c(&self->storage, &other->storage);", None),
+        Sub(r"\bself->storage = std::move\(other->storage\);", "sbo_op_move_c(&self->storage, &other->storage);", None),
+        Sub(r"(?<![\w.>:])empty\(\)", "as_empty(self)", None),
+        Sub(r"\*this\b", "self", None),
+        # a local storage object: constructed by moving the member, destroyed at every scope exit
+        Guard(r"auto (\w+) = std::move\(self->storage\);", r"struct sbo \1; sbo_move_ctor(&\1, &self->storage);", r"sbo_dtor(&\1);", None),
+    ]
+
+
+def storage_lifts(base):
+    lifts, defs, tname = BASES[base]
+    lifts = dict(lifts)
+    lifts.update({
+        "store": Lift(ANY, r"void store\(Ts&&\.\.\. ts\)", rules=sbo_rules()),
+        "reset": Lift(ANY, r"void reset\(\)", expect=3, which=0, rules=sbo_rules()),
+        "dtor": Lift(ANY, r"~movable_sbo_storage\(\) noexcept", rules=sbo_rules()),
+        "move_ctor": Lift(ANY, r"(?<![=\w~])movable_sbo_storage\(movable_sbo_storage&& other\)", rules=sbo_rules()),
+        "op_move": Lift(ANY, r"movable_sbo_storage& operator=\(movable_sbo_storage&& other\)", rules=sbo_rules("self")),
+        "errors": ERRORS,
+        "throw_bad_any_call": Lift(ANYCPP, r"void throw_bad_any_call\(char const\* class_name, char const\* function_name\)", rules=THROW_PIKA),
+    })
+    if "HAS_MOVE_FROM_COPYABLE" in defs:
+        lifts["move_ctor_c"] = Lift(ANY, r"explicit movable_sbo_storage\(\s*" + CSIG, rules=sbo_rules(move_overload="sbo_move_assign_c"))
+        lifts["op_move_c"] = Lift(ANY, r"operator=\(" + CSIG, rules=sbo_rules("self", move_overload="sbo_move_assign_c"))
+    return lifts, list(defs)
+
+
+def any_unit(base, name, group, define, enforce, extra, what, min_ob=60):
+    lifts, defs = storage_lifts(base)
+    lifts.update(extra)
+    uname = "any.%s.%s" % (base, name)
+    defs = defs + [group, define]
+    UNITS.append(Unit(uname, unit_template(["sbo_core.c", "any_units.c"], defs, uname), defines=defs, enforce=enforce, lifts=lifts,
+                      funcs=["%s: %s" % (ANY, what)], min_obligations=min_ob))
+
+
+# -- the wrappers themselves (aos constructor = T-stub) --
+WIDX = {"unique": 0, "any": 1}
+for base, cls in (("unique", "unique_any_sender"), ("any", "any_sender")):
+    k = WIDX[base]
+    as_reset = Lift(ANY, r"void reset\(\)", expect=3, which=1 + k, rules=wrapper_rules())
+    W = {"as_reset": as_reset}
+    any_unit(base, "connect_rvalue", "G_WRAPPER", "U_CONNECT_RVALUE", "as_connect_rvalue", dict(W, connect_rvalue=Lift(
+        ANY, r"detail::any_operation_state<Receiver, Ts\.\.\.> connect\(Receiver&& receiver\) &&", expect=2, which=k,
+        rules=wrapper_rules())), cls + "::connect(Receiver&&) &&")
+    any_unit(base, "from_sender_ctor", "G_WRAPPER", "U_FROM_SENDER_CTOR", "as_from_sender_ctor", dict(W, from_sender_ctor=Lift(
+        ANY, r"(?<![\w])%s\(Sender&& sender\)" % cls, rules=wrapper_rules())), cls + "::" + cls + "(Sender&&)")
+    any_unit(base, "from_sender_assign", "G_WRAPPER", "U_FROM_SENDER_ASSIGN", "as_from_sender_assign", dict(W, from_sender_assign=Lift(
+        ANY, r"(?<![\w])%s& operator=\(Sender&& sender\)" % cls, rules=wrapper_rules("self"))), cls + "::operator=(Sender&&)")
+    any_unit(base, "reset", "G_WRAPPER", "U_AS_RESET", "as_reset", W, cls + "::reset()")
+    any_unit(base, "empty", "G_WRAPPER", "U_AS_EMPTY", "as_bool", dict(
+        W, as_empty=Lift(ANY, r"bool empty\(\) const noexcept", expect=8, which=6 + k, rules=wrapper_rules()),
+        as_bool=Lift(ANY, r"explicit operator bool\(\) const noexcept", expect=2, which=k, rules=wrapper_rules())),
+        cls + "::empty, operator bool")
+any_unit("any", "connect_lvalue", "G_WRAPPER", "U_CONNECT_LVALUE", "as_connect_lvalue", {
+    "as_reset": Lift(ANY, r"void reset\(\)", expect=3, which=2, rules=wrapper_rules()),
+    "connect_lvalue": Lift(ANY, r"connect\(Receiver&& receiver\) const&", rules=wrapper_rules())},
+    "any_sender::connect(Receiver&&) const&")
+# unique_any_sender from any_sender: `other` is an any_sender (its reset() is the third reset() of the header)
+FROM_ANY = {"as_reset": Lift(ANY, r"void reset\(\)", expect=3, which=2, rules=wrapper_rules())}
+any_unit("unique", "from_any_ctor", "G_WRAPPER", "U_FROM_ANY_CTOR", "uas_from_any_ctor", dict(FROM_ANY, from_any_ctor=CtorLift(
+    ANY, r"unique_any_sender\(any_sender<Ts\.\.\.>&& other\)", rules=wrapper_rules() + REFS)),
+    "unique_any_sender::unique_any_sender(any_sender&&)")
+any_unit("unique", "from_any_assign", "G_WRAPPER", "U_FROM_ANY_ASSIGN", "uas_from_any_assign", dict(FROM_ANY, from_any_assign=Lift(
+    ANY, r"unique_any_sender& operator=\(any_sender<Ts\.\.\.>&& other\)", rules=wrapper_rules("self") + REFS)),
+    "unique_any_sender::operator=(any_sender&&)")
+
+
+# -- any_operation_state constructor + the virtual connect() of the sender Base types (holder constructor = T-stub) --
+def holder_init(m):
+    a = [x.strip() for x in split_args(m.group(1))]
+    mm = re.match(r"^std::move\((\w+)\)$", a[0])
+    first = "VX_MOVED(self->%s)" % mm.group(1) if mm else "VX_COPIED(self->%s)" % a[0]
+    return "{ holder_ctor(vx_out, %s); return; }" % ", ".join([first] + a[1:])
+
+
+HOLDER_INIT = Sub(r"\breturn\s+any_operation_state_holder\s*\{([^{}]*)\}\s*;", holder_init, None)
+AOS_CTOR_RULES = [
+    Sub(r"\bthis->receiver_ref = ([^;]+);", r"any_receiver_ref_ctor(&self->receiver_ref, \1);", None),
+    Sub(r"\bthis->op_state = std::forward<Sender>\(sender\)\.connect\((.*?)\);", r"base_connect(&self->op_state, sender, \1);", None),
+    Sub(r"\bany_receiver<Ts\.\.\.>\(([^()]*)\)", r"any_receiver_make(\1)", None),
+    FWD,
+    Sub(r"(?<![\w>.])receiver_ref\b", "self->receiver_ref", None),
+    Sub(r"\bthis\b", "self", None),
+]
+for base in ("unique", "any"):
+    k = WIDX[base]
+    ex = {
+        "aos_ctor": CtorLift(ANY, r"any_operation_state\(Sender&& sender, Receiver_&& receiver\)", rules=AOS_CTOR_RULES),
+        "any_receiver_ref_base_ctor": CtorLift(ANY, r"explicit any_receiver_ref_base\(Receiver\* receiver\)", rules=[Sub(r"\bthis\b", "self", None)]),
+        "any_receiver_ref_ctor": CtorLift(ANY, r"explicit any_receiver_ref\(Receiver_\* receiver\)", rules=[
+            Sub(r"\bany_receiver_ref_base<Ts\.\.\.>\((\w+)\);", r"any_receiver_ref_base_ctor(self, \1);", 1)]),
+        "any_receiver_ctor": CtorLift(ANY, r"explicit any_receiver\(any_receiver_ref_base<Ts\.\.\.>\* receiver\)", rules=[Sub(r"\bthis\b", "self", None)]),
+        "vempty_connect_rvalue": Lift(ANY, r"any_operation_state_holder connect\(any_receiver<Ts\.\.\.>&&\) && override", expect=2, which=k),
+        "vimpl_connect_rvalue": Lift(ANY, r"any_operation_state_holder connect\(any_receiver<Ts\.\.\.>&& receiver\) && override", expect=2, which=k,
+                                     rules=[HOLDER_INIT]),
+    }
+    if base == "any":
+        ex["vempty_connect_lvalue"] = Lift(ANY, r"any_operation_state_holder connect\(any_receiver<Ts\.\.\.>&&\) const& override")
+        ex["vimpl_connect_lvalue"] = Lift(ANY, r"any_operation_state_holder connect\(any_receiver<Ts\.\.\.>&& receiver\) const& override", rules=[HOLDER_INIT])
+    any_unit(base, "opstate_ctor", "G_OPSTATE_CTOR", "U_OPSTATE_CTOR", "aos_ctor", ex,
+             "any_operation_state::any_operation_state(Sender&&, Receiver&&), any_receiver_ref(_base)/any_receiver constructors, "
+             "empty_%s::connect, %s_impl::connect, throw_bad_any_call" % (("unique_any_sender", "unique_any_sender") if base == "unique" else ("any_sender", "any_sender")))
+
+# -- start --
+START = {
+    "holder_start": Lift(ANYCPP, r"void any_operation_state_holder::start\(\) & noexcept", rules=[
+        Sub(r"\bstorage\.get\(\)\.start\(\)", "base_start(sbo_get(&self->storage))", None)]),
+    "vempty_start": Lift(ANYCPP, r"void empty_any_operation_state_holder_state::start\(\) & noexcept", rules=THROW_PIKA),
+    "vimpl_start": Lift(ANY, r"void start\(\) & noexcept override", expect=2, which=1, rules=[
+        Sub(r"\boperation_state\.has_value\(\)", "opt_has_value(self)", None),
+        Sub(r"\bpika::execution::experimental::start\(\*operation_state\)", "wrapped_start(self)", None)]),
+}
+any_unit("opstate", "holder_start", "G_START", "U_HOLDER_START", "holder_start", START,
+         "any_operation_state_holder::start, any_operation_state_holder_impl::start")
+any_unit("opstate", "empty_start", "G_START", "U_EMPTY_START", "holder_start_empty", START,
+         "any_operation_state_holder::start, empty_any_operation_state_holder_state::start")
+any_unit("opstate", "aos_start", "G_START", "U_AOS_START", "aos_start", dict(START, aos_start=Lift(
+    ANY, r"void start\(\) & noexcept", expect=5, which=4, rules=[Sub(r"\bop_state\.start\(\)", "holder_start(&self->op_state)", None)])),
+    "any_operation_state::start, any_operation_state_holder::start, any_operation_state_holder_impl::start")
+
+# -- receiver signals --
+def _sig(args, env):
+    return "ref_%s(%s)" % (env["h2"], ", ".join([env["h1"]] + [a for a in args if a]))
+
+
+REF_RULES = [
+    Sub(r"\bpika::execution::experimental::(set_value|set_error|set_stopped)\(", r"real_\1(", None),
+    Sub(r"std::move\(\*static_cast<std::decay_t<Receiver>\*>\((\w+)\)\)", r"(struct real_receiver *)(\1)", None),
+    Sub(r"std::move\((\w+)\)\.\.\.", r"\1", None),
+    Members(["receiver"], optional=["receiver"]),
+]
+RCV_RULES = [
+    Sub(r"\bauto (\w+) = std::move\(\*this\);", r"struct any_receiver \1 = *self;", None),
+    Call(r"([\w.]+)->(set_value|set_error|set_stopped)", _sig, None),
+    FWD,
+    Sub(r"\bstd::current_exception\(\)", "vx_current_exception()", None),
+    Members(["receiver"], optional=["receiver"]),
+]
+SIG = {
+    "ref_set_value": Lift(ANY, r"void set_value\(Ts\.\.\. ts\) noexcept override", rules=REF_RULES),
+    "ref_set_error": Lift(ANY, r"void set_error\(std::exception_ptr ep\) noexcept override", rules=REF_RULES),
+    "ref_set_stopped": Lift(ANY, r"void set_stopped\(\) noexcept override", rules=REF_RULES),
+}
+for ch in ("value", "error", "stopped"):
+    any_unit("opstate", "receiver_ref.set_" + ch, "G_RECEIVER", "U_REF_SET_" + ch.upper(), "ref_set_" + ch, SIG,
+             "any_receiver_ref<Receiver, Ts...>::set_" + ch)
+any_unit("opstate", "receiver.set_value", "G_RECEIVER", "U_RCV_SET_VALUE", "rcv_set_value", dict(SIG, rcv_set_value=Lift(
+    ANY, r"auto set_value\(\s*Ts_&&\.\.\. ts\) && noexcept", rules=RCV_RULES + [TryCatch(None)])),
+    "any_receiver<Ts...>::set_value, any_receiver_ref::set_value, set_error")
+any_unit("opstate", "receiver.set_error", "G_RECEIVER", "U_RCV_SET_ERROR", "rcv_set_error", dict(SIG, rcv_set_error=Lift(
+    ANY, r"void set_error\(std::exception_ptr ep\) && noexcept", rules=RCV_RULES)),
+    "any_receiver<Ts...>::set_error, any_receiver_ref::set_error")
+any_unit("opstate", "receiver.set_stopped", "G_RECEIVER", "U_RCV_SET_STOPPED", "rcv_set_stopped", dict(SIG, rcv_set_stopped=Lift(
+    ANY, r"void set_stopped\(\) && noexcept", rules=RCV_RULES)),
+    "any_receiver<Ts...>::set_stopped, any_receiver_ref::set_stopped")
+
+# -- any_operation_state_holder constructor + any_operation_state_holder_impl constructor (the wrapped connect = T-stub) --
+any_unit("opstate", "holder_ctor", "G_HOLDER", "U_HOLDER_CTOR", "holder_ctor_real", {
+    "holder_ctor": Lift(ANY, r"any_operation_state_holder\(Sender&& sender, any_receiver<Ts\.\.\.>&& receiver\)", rules=[
+        FWD, Call(r"\bstorage\.template store<impl_type<Sender, Ts\.\.\.>>",
+                  "{ sbo_store(&self->storage, vx_pack({0}, {1})); if (vx_exc) return; }", None, stmt=True)]),
+    "holder_impl_ctor": CtorLift(ANY, r"any_operation_state_holder_impl\(Sender_&& sender, any_receiver<Ts\.\.\.>&& receiver\)", rules=[
+        # with_result_of(f): the value of f() constructed in place
+        Sub(r"\bpika::detail::with_result_of\(\[[^\]]*\]\(\)\s*(?:mutable\s*)?\{\s*return\s+(.*?);\s*\}\)", r"\1", 1),
+        Sub(r"\bpika::execution::experimental::connect\(", "wrapped_connect(", None),
+        FWD, Sub(r"\bthis\b", "self", None)]),
+}, "any_operation_state_holder::any_operation_state_holder(Sender&&, any_receiver&&), any_operation_state_holder_impl constructor, "
+   "movable_sbo_storage::store")
+UNITS[-1].defines.append("VX_CUSTOM_IMPL_CTOR")
+
+
+META = {
+    "trusted_base": [
+        "specs/C18/sbo.h get_empty_vtable / vx_virtual_call / base_delete / vx_alloc+impl_new+vx_impl_ctor: the C++ run time for a "
+        "polymorphic contained object -- `new Impl(..)` (constructor may throw: nothing constructed, storage given back), "
+        "`delete p` (virtual destructor, does not throw), a virtual call needs a live object (or the static empty-vtable object); "
+        "ghost ledger g_live and per-object liveness",
+        "specs/C18/sbo_core.c base_empty / base_clone, any_units.c base_connect / base_start: virtual dispatch on the dynamic type "
+        "(empty vtable type vs. Impl) and on the ref-qualifier written by hand; the bodies dispatched to are lifted",
+        "specs/C18/fb.c slot_of / vx_fits / T_destroy / vx_construct / T_copy_construct / T_construct_from / T_invoke: the stored "
+        "callable type T (opaque): construction may throw, destruction does not, one ghost slot {constructed, type, payload} per "
+        "location (embedded storage of a wrapper, heap block)",
+        "specs/C18/fb.c blk_new / blk_delete: `new aligned_storage_helper<T>` / `delete` of it (allocation failure not modelled)",
+        "specs/C18/fb.c vx_memcpy / VX_SWAP+vx_swap_ghost: std::memcpy / std::swap on the embedded storage copy the bytes AND what "
+        "they represent (trivially-relocatable reading of pika's own technique)",
+        "specs/C18/fb.c vt_deallocate / vt_copy / vt_invoke / vx_vtable: a call `vptr->entry(..)` dispatches to the lifted template "
+        "entry with T = the table (never through a null table); get_vtable<T>() is T's token; get_empty_function_vtable() is the "
+        "distinguished constant g_vt_empty; is_empty_function(f) is an input bit of the callable",
+        "specs/C18/fb.c vx_throw, any_units.c vx_throw_pika: pika::throw_exception / PIKA_THROW_EXCEPTION record the error code and "
+        "raise (lowered to: set vx_exc, callers return)",
+        "specs/C18/any_units.c aos_make / holder_ctor / wrapped_connect / wrapped_start / real_set_value|error|stopped / "
+        "vx_current_exception / opt_has_value: call-trace stubs (count, arguments) for the next layer, each of which is itself a "
+        "unit (opstate_ctor, holder_ctor) or the user's sender/receiver (opaque); they may throw where the real callee may",
+        "specs/C18/spec.py helper rules AssignFromThrowing (assignment from a throwing call), CtorLift (mem-initialiser list -> "
+        "statements), unit_template (per-unit template = masters with exactly one //@FUNC marker), holder_init, _policy",
+        "no VX_ASSUME anywhere in specs/C18",
+    ],
+    "assumptions": [
+        "configuration: PIKA_DETAIL_ENABLE_ANY_SENDER_SBO off (shipped): any_sender storage is heap only; the SBO-on branches are "
+        "dropped by the lifter exactly as by the compiler and are NOT verified",
+        "payloads (senders, callables, receivers, values) are opaque tokens: 'same object' = same address / same token",
+        "exceptions: only constructors of contained objects, the wrapped sender's connect and the defined bad_function_call errors "
+        "throw; destructors and the receiver signals (noexcept) do not; allocation never fails",
+        "universe per operation: at most two wrappers, two pre-existing contained objects / heap blocks and one allocation "
+        "(asserted: a second allocation in one operation fails the unit)",
+        "function_base: embedded callables are relocated by memcpy / byte swap; whether an arbitrary T tolerates that (self-"
+        "referential small objects such as libstdc++ std::list) is not decided",
+        "placement policy of function storage (embedded vs heap) is read from vtable::allocate<T>'s own condition (lifted as "
+        "VX_HEAP_POLICY) and the representation invariant is stated relative to it",
+    ],
+    "not_decided": [
+        "behavioural equivalence of arbitrary wrapped programs (payloads are tokens)",
+        "PIKA_DETAIL_ENABLE_ANY_SENDER_SBO configuration; allocator failures",
+        "basic_function's one-line forwarding constructors/assignment operators, target<T>(), get_function_address/annotation, "
+        "unique_any_sender::reset(Sender&&), make_[unique_]any_sender",
+        "heap block leak (not an object-ledger violation) when a heap-stored callable's constructor throws inside copyable_vtable::_copy / "
+        "basic_function::assign",
+    ],
+    "explanation": "I: representation invariant + ledger of live contained objects for every storage/wrapper operation (sbo.*, fb.*); "
+                   "T: exactly-once forwarding on the same channel with the same arguments (any.*). Units fb.op_assign_copy, fb.bf_assign and "
+                   "fb.embedded_alignment FAIL on the pinned tree (genuine defects, see report); their input classes are excluded by "
+                   "-DVX_NO_THROWING_CTOR resp. -DVX_NO_OVERALIGNED (twins fb.*.nothrow prove).",
+}
